@@ -6,8 +6,12 @@
    `o : site -> list key -> list key` asked at every iteration over a `_connected_ports` set for the visiting order; `ord_ok o`
    (what it returns is a permutation of what it was given) is all that is known about it.  The site carries the full local
    state of the call, so the order may differ at every site and every call.
-   Model/C12EWrites.v / Model/C12EBundles.v do the same for the reconnect loops (resolve_portref / update_ref_deps writes;
-   replace_bundle_inst's loop over the bundle's connected ports).
+   The reconnect loops (resolve_portref / update_ref_deps: `for cp in list(ref._connected_ports): cp.inst.replace(..)`;
+   replace_bundle_inst / resolve_bundleref: `for portref in list(b._connected_ports): replace_bundle_conn(..)`) enter the
+   pipeline model by their NET EFFECT (rewrite_inst_g; Model/C01GBundlePasses.v:flat_xinst); that this effect - the ORDERED
+   connection dict - is the same for every visiting order is Props/C12.v (C12_replace_keeps_order, C12_order_irrelevant,
+   C12_order_irrelevant_module), proved on the statement-by-statement loop model Model/C12Order.v.  PARTIAL: those loop
+   theorems are not re-derived inside pipeline_o (see notes/C12E.md).
 
    NOT modelled (as in Props/C12.v): CPython's hash randomisation, id()-based hashing and the allocator themselves - they are the
    SOURCE of the different orders; every order they could produce is covered by the quantifier over oracles.  Sets that are
